@@ -14,7 +14,7 @@ P = {
  "C01": dict(text="Proved about the model, for every oracle meeting the bliss contract and every pair of descriptions of one molecule "
              "(Iso SameIdent: any renumbering, any listing order of atoms and bonds, any bond orientation; no connectivity or asymmetry "
              "hypothesis): tucanOf O g' = tucanOf O g (C01_string_invariant); carried down to the text of two molfiles, V3000 with any "
-             "indices or V2000, that list one molecule's atoms and bonds in different orders (C01_files_same_string, C01_texts_same_string); the contract is inhabited. Built from sort "
+             "indices or V2000, that list one molecule's atoms and bonds in different orders (C01_texts_same_string; C01_graphs_of_same_molecule for the graphs the readers return); the contract is inhabited; a concrete pair of descriptions with a non-identity renaming meets every hypothesis. Built from sort "
              "canonicality, equivariance of partition and refinement, the relabelling lemmas for networkx's container, and "
              "representation independence of the serializer. The probe evaluates the property on the real code.",
              note="igraph/bliss enters as a recorded oracle answer whose contract (a permutation of the vertices; identical canonical "
@@ -39,7 +39,7 @@ P = {
              tech="Lean 4 proof (equivariance + bliss contract + relabelling) + correspondence + canonical-graph probe"),
  "C05": dict(text="Proved: the Hill-order formula is accepted by the grammar for every multiset of the 118 symbols and any counts; the formula "
              "equals the element counts; each bond once as a<b in strictly ascending order; attribute blocks in strictly ascending index "
-             "order; indices in blocks of increasing atomic number; every emitted string is a Sentence of the grammar (MolAtoms domain). "
+             "order; indices in blocks of increasing atomic number; every emitted string is a Sentence of the grammar (MolAtoms domain); and about the emitted STRING itself (C05_emitted_layout): its syntax tree has the canonical layout - symbols in Hill order (IsHillOrder, specified without reference to the writer), numerals without leading zeros, count 1 omitted, tuples a<b strictly ascending, attribute blocks strictly ascending with mass before rad - and states the molecule's own counts. "
              "Grammar tables are regenerated from the parser's ATN and re-checked by the kernel on every run. Probe: independent validator.",
              note="positivity of mass/radical values is what the readers must establish (defect F2, repaired).",
              tech="Lean 4 proof over regenerated grammar tables + correspondence + independent validator"),
@@ -49,7 +49,7 @@ P = {
              "ending styles, any permitted spelling of the table and anything after it, that state molecules of the same identity "
              "(same element/mass/radical per atom position, D = hydrogen-2, same bonded pairs in any order and orientation) get the "
              "same string whatever they say about charges, bond types, annotations and coordinates (C06_files_same_string, "
-             "C06_v3000_file_readsAs, C06_v2000_file_readsAs, C06_line_endings). Probe: paired molfile renderings differing in non-"
+             "C06_v3000_file_readsAs, C06_v2000_file_readsAs, C06_line_endings; C06_mixed_line_endings: also with a different terminator after every line). Probe: paired molfile renderings differing in non-"
              "identity data, line endings in memory and through graph_from_file.",
              note="V3000 files with ANY pairwise distinct atom indices in any order are covered at file level too "
                   "(C06_v3000_file_any_indices, C06_graphs_of_same_identity); the bliss contract is an explicit hypothesis (CanonOracle).",
@@ -69,7 +69,7 @@ P = {
              "any chunking, order and interleaving, decoy codes superseded; isotopes by M  ISO lines; D/T by symbol) are read as the "
              "same atom and bond dictionaries up to the spelling of coordinates; C08_same_string - hence the same TUCAN string, at "
              "text level with any line endings; C08_connection_table, C08_property_block, C08_property_line_entries, "
-             "C08_fixed_width_fields, C08_charge_codes, C08_hydrogen_isotopes. Non-vacuity: a concrete pair of files meets every "
+             "C08_fixed_width_fields, C08_charge_codes, C08_hydrogen_isotopes; C08_block_written_in_columns: every property block laid out in the specification's fixed columns meets the block hypothesis of these theorems. Non-vacuity: a concrete pair of files meets every "
              "hypothesis. Tied by correspondence on rendered V2000/V3000 pairs (incl. >99 atoms, explicit zero entries, blank "
              "coordinate fields, unusual characters); probe compares both readers with the molecule and each other.",
              note="float parsing is opaque.",
@@ -77,44 +77,44 @@ P = {
  "C09": dict(text="Proved about writer and reader models, for every line length and any atom count: the written file has no line over 79 characters, "
              "and reading it back returns the same atoms in order with the same element, charge, radical, mass, coordinate tokens and the "
              "same bonds and bond types (C09_write_read; C09_write_read_any_listing for graphs whose nodes are listed in any order, e.g. "
-             "canonical graphs; C09_write_read_same_string; C09_string_molfile_string: string->graph->molfile->graph->string returns the "
-             "original string); plus the line-level lemmas. Probe: real write→read with length-targeted lines.",
+             "canonical graphs; C09_write_read_same_string; C09_bond_records: no other adjacency record appears; C09_written_is_v3000_file: the written lines are a V3000 connection table in the sense of C07's specification (IsV3000File), independently of any reader; C09_string_molfile_string(_total): string->graph->molfile->graph->string returns the "
+             "original string, with writability of the parsed graph and the success of every step as conclusions); plus the line-level lemmas. Probe: real write→read with length-targeted lines.",
              note="float formatting is opaque (coordinates are pre-formatted tokens); labels are 0..n-1, listed in any order.",
              tech="Lean 4 proof (file-level write/read for all lengths) + correspondence + length-targeted round-trip probe"),
  "C10": dict(text="The Lean reference reader (lexer + recogniser from the grammar, tables regenerated from the ATN) is compared with the real parser "
              "on sentences, single-token edits, every element and table-neighbour pair: accept/reject, exception type, graph. Proved: "
              "acceptance exactly (C10_accepts_iff: accepted iff a sentence whose indices exist, without self-bond, duplicate attribute or over-long literal); "
-             "every rejection is TucanParserException; the recogniser accepts exactly the declarative grammar; the returned graph is the "
-             "denoted graph (atoms by increasing Z, bonds as a set, attributes on indexed atoms); the element table is the periodic table.",
+             "every rejection is TucanParserException; the recogniser accepts exactly the declarative grammar; the returned graph read off the string's syntax tree (C10_denotes: "
+             "n atoms, the formula's expansion by non-decreasing Z, bonded exactly where a tuple says, mass/radical exactly where a block says, nothing else); the element table is the periodic table.",
              note="the ANTLR runtime is compared behaviourally, not verified.",
              tech="Lean 4 reference reader + proofs (reject kind, grammar, denotation) + differential correspondence on token edits"),
  "C11": dict(text="Proved at string level (C11_respelled_strings): two accepted strings with the same formula, the same set of bonded pairs and the same attribute settings normalize to the same string; and at listener-state level: two spellings whose listener states correspond under a renumbering inside element blocks (covers tuple order, endpoint "
              "swaps, repeats, split/reordered attribute blocks, renumbering) parse to Iso SameIdent graphs, hence equal normal forms by C01; "
-             "idempotence by C03's fixed point. Probe: real norm on respellings and twice.",
+             "C11_renumbered_strings: the same at string level with atoms renumbered inside element blocks; idempotence by C03's fixed point. Probe: real norm on respellings and twice.",
              note="bliss contract as in C01.", tech="Lean 4 proof (parser denotation + C01 + C03) + correspondence + respelling probe"),
  "C12": dict(text="Proved about the model: canonicalization is an injective renaming onto 0…n-1 keeping every attribute but partition and every bond "
-             "record (for any oracle returning a permutation); the serializer's post-state differs only in the scratch flag; repeating it "
+             "record (for any oracle returning a permutation), the class every atom received being set and carried (C12_classes_carried); the serializer's post-state differs only in the scratch flag; repeating it "
              "gives the same string. The harness snapshots arguments, checks aliasing and repeats calls (serialize 2-4 times) on the same objects.",
              note="value semantics of the model is faithful only without aliasing, which the harness checks.",
              tech="Lean 4 proof (relabelling lemmas) + correspondence with argument post-states + renaming probe"),
  "C13": dict(text="Proved about the model, no oracle: classes are equivariant under relabelling in any listing (equal round counts), invariant under "
-             "automorphisms, the final partition is equitable and classes determine the invariant code; rounds ≤ n+1. Probe: the three clauses "
+             "automorphisms, the final partition is equitable and atoms of one class have the same element, mass and radical (C13_same_class_same_identity); every atom has a class and the canonical graph carries it (C13_classes_on_canonical_graph); rounds ≤ n+1. Probe: the three clauses "
              "on the real partition attribute.",
              note="", tech="Lean 4 proof (equivariance, equitability) + correspondence + partition probe"),
  "C14": dict(text="PARTIAL. Lean carries order-obliviousness of every sorted sequence and of the serializer, the canonical graph and the whole pipeline "
-             "(C14_pipeline_listing_oblivious: the hash-seed / insertion-history quantifier for the modelled code), value semantics, and an abstract lazily-filled cache theorem (every interleaving and history). Thread "
+             "(C14_pipeline_listing_oblivious: the hash-seed / insertion-history quantifier for the modelled code), value semantics, and a toy lazily-filled cache (defined in the proof file, not derived from the ANTLR runtime; every interleaving and history of that toy). Thread "
              "switching inside the ANTLR runtime/networkx/igraph cannot be exhibited by the model and is sampled: subprocesses under several "
              "PYTHONHASHSEED values and call orders, 8 threads with a 1 microsecond switch interval; the caller scribbles on every result "
              "and every operation runs twice per process, so shared or cached mutable results show.",
              note="CPython scheduling is outside every theorem.",
              tech="Lean 4 proof (order-obliviousness, cache model) + multi-process/multi-thread differential"),
- "C15": dict(text="PARTIAL. Proved about the model for graphs of every size and shape: the pipeline returns a string and the parser accepts it; the "
+ "C15": dict(text="PARTIAL. Proved about the model for graphs of every size and shape: the pipeline returns a string and the parser accepts it (C15_v3000_text_to_string: from the text of a conformant V3000 file to a string in canonical layout that parses back); the "
              "refinement stops within n rounds; the BFS relabelling (well-founded recursion) never raises and meets its assertion. Python's "
              "stack, memory, bliss's running time and ANTLR's recursion are outside the model; the probe runs the real pipeline on depth-linear "
              "families in the thousands of atoms.",
              note="", tech="Lean 4 proof (totality, termination bound) + correspondence + large-input probe"),
  "C16": dict(text="Proved about the model: the helper's result is the argument renamed by a bijection of its label set (all atom and bond "
-             "attributes carried), nodes in label order, and differs in its edge set when enforcement applies. The harness replays the real "
+             "attributes carried), nodes in label order, and when the argument has at least two bonds and two atoms that are not bonded, some pair of labels is bonded in the argument and not in the result (C16_edges_differ, in terms of adjacency). The harness replays the real "
              "random.shuffle results in the model and compares graphs incl. node order and all attributes (an atom's bonds as a set).",
              note="random.shuffle is a recorded parameter; termination of the retry loop is almost-sure, not a theorem.",
              tech="Lean 4 proof (relabelling) + exact correspondence with recorded shuffles + faithfulness probe"),
